@@ -144,15 +144,17 @@ def beartype_descriptor_decorator_builtin_property(
     descriptor_setter  = descriptor.fset  # type: ignore[assignment,union-attr]
     descriptor_deleter = descriptor.fdel  # type: ignore[assignment,union-attr]
 
-    # Decorate this getter function with type-checking.
+    # If this property method descriptor wraps a getter function, decorate this
+    # function with type-checking.
     #
-    # Note that *ALL* property method descriptors wrap at least a getter
-    # function (but *NOT* necessarily a setter or deleter function). This
-    # function is thus guaranteed to be non-"None".
-    descriptor_getter = beartype_func(  # type: ignore[type-var]
-        func=descriptor_getter,  # pyright: ignore
-        **kwargs
-    )
+    # Note that most but *NOT* all property method descriptors wrap a getter
+    # function. Write-only properties (e.g., "property(None, setter)") and empty
+    # placeholder properties (e.g., "property()") wrap *NO* getter function.
+    if descriptor_getter is not None:
+        descriptor_getter = beartype_func(  # type: ignore[type-var]
+            func=descriptor_getter,  # pyright: ignore
+            **kwargs
+        )
 
     # If this property method descriptor additionally wraps a setter and/or
     # deleter function, type-check those functions as well.
